@@ -183,7 +183,7 @@ def entry_bytes_recomputed(ctx, chk, rid):
     for b in tws:
         t = cw.blocks[b]["term"]
         sl = O.slice_back(cw, t["args"][1])
-        from_start = "start" in sl["fields"]
+        from_start = "start" in sl["fields"] and "vecdb::variants::compressed::inner::page::Page::end" not in sl["calls"]
         if not from_start:
             continue
         reused = []
@@ -298,13 +298,19 @@ def run(ctx, chk):
                            "the valid data")
     # ---------------- E2 publications
     pubs = 0
-    for bid, body in sorted(P.bodies.items()):
-        if body.krate != "vecdb":
+    for bid, body0 in sorted(P.bodies.items()):
+        if body0.krate != "vecdb":
             continue
+        if not any(any(n.endswith("ReadWriteBaseVec::<I, T>::update_stored_len") or n.endswith("SharedLen::set")
+                       for n in names(t)) for _, t in body0.calls()) and not O.inlined_into(bid):
+            continue
+        if O.covered_by_callers(bid):
+            continue        # a private helper / closure: judged inside the functions that use it
+        body = O.body(bid)
         for b, t in body.calls():
             nm = names(t)
-            if not any(n.endswith("ReadWriteBaseVec::<I, T>::update_stored_len") or n.endswith("SharedLen::set")
-                       for n in nm):
+            if t.get("inlined") or not any(n.endswith("ReadWriteBaseVec::<I, T>::update_stored_len") or n.endswith("SharedLen::set")
+                                           for n in nm):
                 continue
             if bid.endswith("::update_stored_len") or bid.endswith("SharedLen::set"):
                 if bid.endswith("::update_stored_len"):
@@ -352,6 +358,23 @@ def run(ctx, chk):
                        "readers then read past the region's length")
     pins(ctx, chk, "E3")
     live_reader_at_reads(ctx, chk, "E6")
+    # E3b = A10.6 a Reader owns a clone of its Region (its extent cannot be freed and handed to another region under it)
+    radt = P.adts.get("rawdb::reader::Reader")
+    if radt is None:
+        raise AnchorMissing("ADT rawdb::reader::Reader not found")
+    owns = any("rawdb::region::Region" == f["ty"].replace("crate::", "rawdb::") or f["ty"].endswith("region::Region")
+               for f in radt["variants"][0]["fields"])
+    chk.oblige("E3b a rawdb Reader owns a clone of its Region", owns, key="E3b|Reader|region-not-pinned",
+               msg="without the clone a region can be removed under a live reader; after the next flush its extent is "
+                   "reused and the reader serves another vector's bytes")
+    # E7 a compressed vector's data region is cut only together with its page index: nobody in the compressed
+    # variants calls Region::truncate (only truncate_write inside write(), after which the index is rewritten)
+    cut = [(bid, b) for bid, root, b in O.callers_of(M(r"rawdb::region::Region::truncate"))
+           if bid.startswith("vecdb::variants::compressed::") or "ReadWriteCompressedVec" in bid]
+    chk.oblige("E7 no direct Region::truncate in the compressed variants [%d]" % len(cut), not cut, detail={"sites": cut},
+               key="E7|compressed|direct-region-truncate",
+               msg="truncating the data region without rewriting the page index leaves entries that point past the "
+                   "region's length; after a re-import every read follows them")
     entry_bytes_recomputed(ctx, chk, "E4b")
     # ---------------- E5 the source of truncated values for change records consults the *previous* overlay
     csr = "vecdb::variants::raw::inner::read_write::ReadWriteRawVec::<I, T, S>::collect_stored_range"
